@@ -162,7 +162,8 @@ Record hstep := {
   h_val : option Q;                            (* evaluate(x, t) of the long-lived object (None: not called at this step) *)
   h_grad : option (list Q);                    (* evaluate_gradient(x, t) of the long-lived object *)
   h_fval : Q; h_fgrad : list Q;                (* the same methods of a freshly constructed LCBSC over the same surrogate *)
-  h_fd : list Q                                (* central differences of the fresh object's evaluate *)
+  h_fd : list Q;                               (* central differences of the fresh object's evaluate, h = 1e-5 *)
+  h_fd2 : list Q                               (* the same with h = 1e-6 *)
 }.
 
 Record hist_case := {
@@ -192,6 +193,16 @@ Definition closeb (a b : Q) : bool := close tol a b.
 Definition fd_close (a b : Q) : bool :=
   Qle_bool (Qabs (a - b)%Q) ((2 # 10000) * (Qabs a + Qabs b) + (1 # 1000000))%Q.
 
+(** per coordinate: the gradient matches the central difference for at least one of the two step sizes
+    (truncation error dominates the larger step where the surrogate's length scale is small, rounding
+    error the smaller one) *)
+Fixpoint fd_match (g f1 f2 : list Q) : bool :=
+  match g, f1, f2 with
+  | [], [], [] => true
+  | a :: g', b :: f1', c :: f2' => (fd_close a b || fd_close a c) && fd_match g' f1' f2'
+  | _, _, _ => false
+  end.
+
 Definition opt_all {X} (f : X -> bool) (o : option X) : bool := match o with None => true | Some x => f x end.
 
 Definition step_agree (s : hstep) : bool :=
@@ -211,8 +222,8 @@ Definition step_ok (s : hstep) : bool :=
   negb (Qle_bool (h_beta s) 0%Q) && negb (Qle_bool (h_var s) 0%Q)
   && forallb (fun ar => Qle_bool 0%Q (snd ar) && close tol (snd ar * snd ar)%Q (fst ar)) (h_sqrt s)
   && opt_all (fun v => closeb v (h_fval s)) (h_val s)
-  && opt_all (fun g => list_eqb closeb g (h_fgrad s) && list_eqb fd_close g (h_fd s)) (h_grad s)
-  && list_eqb fd_close (h_fgrad s) (h_fd s).
+  && opt_all (fun g => list_eqb closeb g (h_fgrad s) && fd_match g (h_fd s) (h_fd2 s)) (h_grad s)
+  && fd_match (h_fgrad s) (h_fd s) (h_fd2 s).
 
 Definition hacq_ok (h : hist_case) (a : nat * list row) : bool :=
   Nat.eqb (length (snd a)) (fst a) && forallb (in_box (hs_bounds h)) (snd a).
